@@ -456,6 +456,8 @@ class Engine:
             return SArr(zite(c, a.term, b.term), a.shape, a.dt, a.elem, wr, a.dtname)
         if isinstance(a, tuple) and isinstance(b, tuple) and len(a) == len(b):
             return tuple(self.merge_val(c, x, y) for x, y in zip(a, b))
+        if isinstance(a, SView) and isinstance(b, SView) and a.base == b.base and a.axis == b.axis:
+            return SView(a.base, a.axis, zite(c, a.idx, b.idx))
         if isinstance(a, (SView, SSlice)) or isinstance(b, (SView, SSlice)):
             if a == b:
                 return a
@@ -641,6 +643,9 @@ class Engine:
             raise OutOfSubset(f"call to {name}")
         if isinstance(f, ast.Attribute):
             recv = f.value
+            if isinstance(recv, ast.Name) and recv.id in ("np", "numpy") and f.attr in ("empty", "zeros", "ones") \
+                    and not spec and e.args:
+                return self.np_alloc(f.attr, e, st, ctx)
             if isinstance(recv, ast.Name) and recv.id in ("np", "numpy", "math"):
                 raise OutOfSubset(f"call {ast.unparse(f)}")
             obj = self.ev(recv, st, spec, ctx)
@@ -659,6 +664,36 @@ class Engine:
                 return self.reduce_minmax(obj, f.attr, st, spec, unparse(e))
             raise OutOfSubset(f"method {ast.unparse(f)}")
         raise OutOfSubset(f"call {ast.unparse(e)}")
+
+    def np_alloc(self, kind, e, st, ctx):
+        """np.empty / np.zeros / np.ones(shape[, dtype]): a fresh array; empty => nothing written yet."""
+        shp = self.ev(e.args[0], st, False, ctx)
+        dims = tuple(to_num(d) for d in shp) if isinstance(shp, tuple) else (to_num(shp),)
+        if len(dims) not in (1, 2):
+            raise OutOfSubset("array rank")
+        for d in dims:
+            self.emit("alloc", f"{unparse(e)}@{self.stmt_label()}", d >= 0, st.guard, self.c.props)
+        dtxt = unparse(e.args[1]) if len(e.args) > 1 else (unparse(e.keywords[0].value) if e.keywords else "")
+        elem, dt = "real", None
+        if "BOOL" in dtxt.upper():
+            elem = "bool"
+        elif dtxt and "float" not in dtxt.lower():
+            elem = "int"
+            if "DEFAULT_INT" in dtxt or dtxt in ("int", "np.int64"):
+                dt = (z3.IntVal(I64_MIN), z3.IntVal(I64_MAX))
+            elif dtxt in self.c.attrs or dtxt in st.vars:
+                v = st.vars.get(dtxt) if dtxt in st.vars else None
+                dt = v if isinstance(v, tuple) and len(v) == 2 else None
+        sort = asort(len(dims), elem)
+        if kind == "empty":
+            term = fresh("alloc", sort)
+            wr = z3.K(I, z3.BoolVal(False)) if len(dims) == 1 else z3.K(I, z3.K(I, z3.BoolVal(False)))
+        else:
+            fill = {"int": z3.IntVal(0 if kind == "zeros" else 1), "real": z3.RealVal(0 if kind == "zeros" else 1),
+                    "bool": z3.BoolVal(kind == "ones")}[elem]
+            term = z3.K(I, fill) if len(dims) == 1 else z3.K(I, z3.K(I, fill))
+            wr = z3.K(I, z3.BoolVal(True)) if len(dims) == 1 else z3.K(I, z3.K(I, z3.BoolVal(True)))
+        return SArr(term, dims, dt, elem, wr)
 
     def reduce_minmax(self, obj, which, st, spec, txt):
         """a[lo:hi].min() etc. as a fresh value with its defining axioms (attained bound)."""
@@ -745,6 +780,11 @@ class Engine:
                                                                  z3.Select(arr.term, i_ + j_ - k),
                                                                  z3.Select(arr.term, k))))
             return SArr(new, arr.shape, arr.dt, arr.elem, None, arr.dtname)
+        if name == "view_index":   # view_index(v): the fixed row/column index of a row/column view
+            v = self.ev(e.args[0], st, True, ctx)
+            if not isinstance(v, SView):
+                raise ContractError("view_index of a non-view")
+            return v.idx
         if name == "shape":
             arr = self.ev(e.args[0], st, True, ctx)
             return arr.shape[e.args[1].value]
@@ -1277,7 +1317,9 @@ class Engine:
                     hv.vars[n] = fresh(n, v.sort())
                 elif isinstance(v, tuple):
                     hv.vars[n] = tuple(fresh(n, x.sort()) for x in v)
-                elif isinstance(v, (SView, SSlice)):
+                elif isinstance(v, SView):
+                    hv.vars[n] = SView(v.base, v.axis, fresh(n + "_idx"))     # same array, unknown row/column
+                elif isinstance(v, SSlice):
                     hv.vars.pop(n)
                 elif isinstance(v, SArr):
                     arrays = set(arrays) | {n}
